@@ -12,9 +12,19 @@ EXTENDS TraceLib
 TxMust == {"time", "nonce", "sender", "recipient", "value", "data", "fee", "type"}
 BlMust == {"sender", "parent", "round", "seed", "txns", "outputs", "state", "magicblock"}
 
-VARIABLES l, ev, alt, cid, pub, hashed, sigKey, sigHash, sigBroken, dup
-vars == <<l, ev, alt, cid, pub, hashed, sigKey, sigHash, sigBroken, dup>>
+VARIABLES l, ev, alt, cid, pub, hashed, sigKey, sigHash, sigBroken, dup, ntx, dupAt
+vars == <<l, ev, alt, cid, pub, hashed, sigKey, sigHash, sigBroken, dup, ntx, dupAt>>
 Null == [ev |-> "none"]
+
+\* Binding!Duplicate(n, i): the step name MC_Binding!DupName gives it, for blocks of up to MaxN transactions
+MaxN == 8
+DupName(n, i) == "Duplicate:" \o ToString(n) \o ":" \o ToString(i)
+DupShapes == {sh \in (1..MaxN) \X (1..MaxN) : sh[2] <= sh[1]}
+DupNames == {DupName(sh[1], sh[2]) : sh \in DupShapes}
+IsDup(st) == st \in DupNames
+ShapeOf(st) == CHOOSE sh \in DupShapes : st = DupName(sh[1], sh[2])
+\* Binding!MerkleNeutral: the last transaction of an odd-sized block repeated = what the Merkle padding does anyway
+MerkleNeutral(n, i) == i = n /\ n % 2 = 1
 
 
 Must(kind) == IF kind = "txn" THEN TxMust ELSE BlMust
@@ -28,17 +38,19 @@ ApplyStep(s, st, kind) ==
     [] st = "Rehash"    -> [s EXCEPT !.hashed = Altered(s.alt, s.cid) \cap must]
     [] st = "Resign"    -> [s EXCEPT !.sigKey = "attacker", !.sigHash = s.hashed, !.sigBroken = FALSE]
     [] st = "BreakSig"  -> [s EXCEPT !.sigBroken = TRUE]
-    [] st = "Duplicate" -> [s EXCEPT !.dup = TRUE]
+    [] IsDup(st)        -> LET sh == ShapeOf(st) IN
+                           [s EXCEPT !.dup = TRUE, !.ntx = sh[1], !.dupAt = sh[2],
+                                     !.alt = IF MerkleNeutral(sh[1], sh[2]) THEN s.alt ELSE s.alt \cup {"txns"}]
     [] OTHER            -> [s EXCEPT !.alt = s.alt \cup {st}]
 
 RECURSIVE ApplyAll(_, _, _, _)
 ApplyAll(s, steps, i, kind) == IF i > Len(steps) THEN s ELSE ApplyAll(ApplyStep(s, steps[i], kind), steps, i + 1, kind)
 
 Fresh == [alt |-> {}, cid |-> "victim", pub |-> "victim", hashed |-> {}, sigKey |-> "victim",
-          sigHash |-> {}, sigBroken |-> FALSE, dup |-> FALSE]
+          sigHash |-> {}, sigBroken |-> FALSE, dup |-> FALSE, ntx |-> 0, dupAt |-> 0]
 
 TraceInit == /\ l = 1 /\ ev = Null /\ alt = {} /\ cid = "victim" /\ pub = "victim" /\ hashed = {}
-             /\ sigKey = "victim" /\ sigHash = {} /\ sigBroken = FALSE /\ dup = FALSE
+             /\ sigKey = "victim" /\ sigHash = {} /\ sigBroken = FALSE /\ dup = FALSE /\ ntx = 0 /\ dupAt = 0
 
 TraceValidate ==
   /\ l <= Len(Trace) /\ Trace[l].ev = "Validate" /\ l' = l + 1
@@ -46,10 +58,11 @@ TraceValidate ==
          s == ApplyAll(Fresh, e.steps, 1, e.kind) IN
        /\ ev' = e /\ alt' = s.alt /\ cid' = s.cid /\ pub' = s.pub /\ hashed' = s.hashed
        /\ sigKey' = s.sigKey /\ sigHash' = s.sigHash /\ sigBroken' = s.sigBroken /\ dup' = s.dup
+       /\ ntx' = s.ntx /\ dupAt' = s.dupAt
 
 TraceOther ==
   /\ l <= Len(Trace) /\ Trace[l].ev # "Validate" /\ l' = l + 1 /\ ev' = Trace[l]
-  /\ UNCHANGED <<alt, cid, pub, hashed, sigKey, sigHash, sigBroken, dup>>
+  /\ UNCHANGED <<alt, cid, pub, hashed, sigKey, sigHash, sigBroken, dup, ntx, dupAt>>
 
 TraceNext == TraceValidate \/ TraceOther
 TraceSpec == TraceInit /\ [][TraceNext]_vars
@@ -72,6 +85,10 @@ C29_HashSensitive == IsV("block") => ((Altered(alt, cid) \cap BlMust # {}) => ev
 HarnessGenuineAccepted == (ev.ev = "Validate" /\ IsGenuine) => ev.accepted
 (* the abstract replay and the driver agree on which fields differ *)
 HarnessAltAgrees == ev.ev = "Validate" => (Altered(alt, cid) = {ev.alt[i] : i \in 1..Len(ev.alt)})
+
+(* ... and on the shape of a repetition: the block the driver sent carried ntx transactions when it appended *)
+(* the dupAt-th one once more (dup_n = dup_i = 0 when the behaviour repeats nothing)                      *)
+HarnessDupShape == ev.ev = "Validate" => (ev.dup_n = ntx /\ ev.dup_i = dupAt)
 
 (* C47 *)
 C47_VerifyExact ==
